@@ -7,6 +7,7 @@
    is C17_file_later_messages_unaffected. *)
 From Coq Require Import List NArith Bool.
 From RV Require Import Targets.TargetsModel Targets.TargetsProofs.
+From RV Require Ingress.IngressModel Targets.TargetsRegister.
 Import ListNotations.
 Local Open Scope N_scope.
 
@@ -171,6 +172,15 @@ Theorem C17_register_field_is_last_supplied : forall p, In p info_fields -> fora
   fld p (reg_get (reg_after [] h) id) = fold_left upd_field (map p (updates_for id h)) None.
 Proof. exact field_after. Qed.
 Print Assumptions C17_register_field_is_last_supplied.
+
+(* ... and it is the register of property C14: after every history of register()
+   and update_info calls, the register this model reads answers every get like
+   the model of src/ingress.rs that the C14 engine ties to the real Register *)
+Theorem C17_register_is_the_C14_register : forall cs id,
+  option_map TargetsRegister.to_c14 (reg_get (fold_left TargetsRegister.t_step cs []) id)
+  = IngressModel.reg_get (fold_left TargetsRegister.c14_step cs IngressModel.reg_new) id.
+Proof. exact TargetsRegister.registers_agree_from_new. Qed.
+Print Assumptions C17_register_is_the_C14_register.
 
 (* reconfiguration: the name the target answers to cannot change; the QoS of a
    publication is the configured one as long as no reconfiguration changes it *)
